@@ -175,7 +175,53 @@ def bare_vs_wrapped(ctx):
             ctx.violation(f"C02:bare-vs-wrapped-raised:{name}", f"{name}: {type(e).__name__}: {str(e)[:60]}", rep)
 
 
+def placement_unit(ctx, rng, data=None):
+    """the step the abstract network of `C02_transparent` takes for granted: the structure that wraps a placed solver carries, on
+    the pins it adopted, exactly the matrix the child's own solve() returns - pin by pin, at every sweep point, also when the
+    same child is wrapped twice and evaluated at different values in between"""
+    import props.c04 as c04
+    L = impl.lk()
+    if data is None:
+        pcirc, pnames = c04.random_pcirc(rng, 4)
+        kws = [{nm: ([rng.randint(-6, 6) / 8 for _ in range(3)] if rng.random() < 0.3 else rng.randint(-6, 6) / 8)
+                for nm in pnames if rng.random() < 0.7} for _ in range(3)]
+        rep = {"kind": "placement-unit", "pcirc": c04.pcirc_json(pcirc), "kws": kws}
+    else:
+        pcirc, kws, rep = c04.pcirc_from_json(data["pcirc"]), data["kws"], data
+    names = cs.exposed_names(pcirc)
+    if not names:
+        return
+    ctx.case(rep, tags=["stream:placement-unit"])
+    try:
+        child, _ = impl.build_param_solver(pcirc, name="child")
+        wraps = [L.Structure(solver=child), L.Structure(solver=child)]
+        for k, kw0 in enumerate(kws):
+            kw = {nm: (np.array(v) if isinstance(v, list) else v) for nm, v in kw0.items()}
+            st = wraps[k % 2]
+            st.reset()
+            st.update_params(dict(kw))
+            S = np.asarray(st.createS())
+            ref = child.solve(**kw)
+            R = np.asarray(ref.S)
+            if S.shape != R.shape:
+                ctx.violation("C02:placement-matrix", f"the wrapping structure's matrix has shape {S.shape}, the child's solve() {R.shape}", rep)
+                return
+            for a in names:
+                for b in names:
+                    i, j = st.pin_dic[(st, L.Pin(a))], st.pin_dic[(st, L.Pin(b))]
+                    if np.max(np.abs(S[:, i, j] - R[:, ref.pin_dic[L.Pin(a)], ref.pin_dic[L.Pin(b)]])) > 1e-12:
+                        ctx.violation("C02:placement-matrix", f"the structure wrapping a placed solver does not carry the child's coefficient ({a},{b}) "
+                                      f"(evaluation {k}, parameters {sorted(kw)})", rep)
+                        return
+    except Exception as e:  # noqa
+        if impl.outcome_class(e) != "singular":
+            ctx.violation(f"C02:placement-raised-{type(e).__name__}", f"evaluating a placed solver raised {type(e).__name__}: {str(e)[:70]}", rep)
+
+
 def run(ctx):
+    prng = ctx.subrng("c02-placement")
+    for _ in range(ctx.budget(60, 600)):
+        placement_unit(ctx, prng)
     rng = ctx.subrng("c02")
     n = ctx.budget(300, 2000)
     maxd = 4 if ctx.tier == "quick" else 6
@@ -194,6 +240,11 @@ def run(ctx):
 
 
 def replay(ctx, data):
+    if data.get("kind") == "placement-unit":
+        placement_unit(ctx, None, data)
+        if ctx.violations:
+            return False, ctx.violations[0]["what"]
+        return True, "the wrapping structure carries the child's matrix on the adopted pins"
     if data.get("kind") == "bare":
         bare_vs_wrapped(ctx)
     else:
